@@ -25,6 +25,7 @@ import YashModel.Proc.Flow2
 import YashModel.Proc.Flow3
 import YashModel.Proc.Order
 import YashModel.Proc.TrapLemmas
+import YashModel.Generated.WaitCore
 import YashModel.Proc.Spec
 namespace YashModel.Proc
 
@@ -1362,7 +1363,7 @@ example :
 
 
 section WaitTrap
-open YashModel.Generated.ProcConsts (SIGNAL_EXIT_OFFSET)
+open YashModel.Generated.ProcConsts (SIGNAL_EXIT_OFFSET EXIT_SUCCESS)
 
 /-! ## Wave 3: `wait` interrupted by a trapped signal (`WaitTrap.lean`) -/
 
@@ -1431,17 +1432,12 @@ theorem wait_trap_result_sound {s : Sys} {j : Nat} {traps : List Nat} {senders :
     (∀ σ, u.out = some (.trapped σ) → σ ∈ traps) ∧
     (u.out = none → jobDone u.sys.log j = none) := by
   have hT := tinv_steps hu (tinv_start h hpc j traps senders)
-  have hjob : ∀ {a b : TSys}, TSteps a b → b.job = a.job ∧ b.traps = a.traps := by
-    intro a b hab
-    induction hab with
-    | refl => exact ⟨rfl, rfl⟩
-    | tail l _ hs ih =>
-      have := tstep_frame l hs
-      exact ⟨this.1.trans ih.1, this.2.trans ih.2⟩
   have h0 : (TSys.start s j traps senders).job = j ∧ (TSys.start s j traps senders).traps = traps := by
     unfold TSys.start; split <;> exact ⟨rfl, rfl⟩
-  obtain ⟨hj, htr⟩ := hjob hu
-  rw [h0.1] at hj; rw [h0.2] at htr
+  have h1 : (TSys.start s j traps senders).single = false := by
+    unfold TSys.start; split <;> rfl
+  obtain ⟨hj, htr, hsg⟩ := tsteps_frame hu
+  rw [h0.1] at hj; rw [h0.2] at htr; rw [h1] at hsg
   refine ⟨?_, ?_, ?_⟩
   · intro i r ho
     obtain ⟨h1, h2⟩ := hT.fin_ok i r ho
@@ -1456,7 +1452,7 @@ theorem wait_trap_result_sound {s : Sys} {j : Nat} {traps : List Nat} {senders :
       · simp [hr] at hcount; omega
     refine ⟨h1.trans hj, ⟨c, hc, hst⟩, by simpa [hre] using hcount, hre⟩
   · intro σ ho; rw [← htr]; exact hT.trap_ok σ ho
-  · intro ho; rw [← hj]; exact hT.job_open ho
+  · intro ho; rw [← hj]; exact hT.job_open ho hsg
 
 /-- ★ No result depends on which process runs first: the awaited job sends the trapped signal `σ` to the shell
     and then exits (`trap … SIG; ( kill -s SIG $$; …; exit N ) & wait $!`).  From the state in which the shell is
@@ -1495,6 +1491,297 @@ theorem ts_driver_trapped (fuel : Nat) (choices : List Nat) {t : TSys} {σ : Nat
   refine ⟨trun_tsteps fuel choices t, fun o ho => ?_⟩
   have := sole_job_signal_then_exit_is_trapped h (trun_tsteps fuel choices t) ho
   exact ⟨this.1, this.2.1⟩
+
+
+/-- ★ The same with ANY other children around (jobs still running, exiting, unreported), under the scheduling
+    the executor really does — a turn of the shell runs until the shell blocks (`Concurrent::run_virtual`;
+    `BSteps`).  From a state in which the shell is blocked in `wait` for job `j`, `j` alive, unreported, not
+    recorded as finished and still to send the trapped signal `σ` (every sender sends `σ`): every run that ends the
+    built-in ends it with `Trapped(σ)`, and the job is not recorded as finished — the next `wait` for it yields its
+    status, not 127.  SIGCHLDs of other children wake the shell any number of times in between (it records them
+    and blocks again: `waiting_burst`); the job's own SIGCHLD can only come after its signal.  At the granularity
+    of single steps (`TSteps`) this is false with other children — a signal arriving between a wake-up and the next
+    `wait()` loses to the job's exit —, which is why the script is race-free only where the shell cannot be
+    pre-empted between the two. -/
+theorem signal_then_exit_is_trapped_under_executor {t u : TSys} {σ : Nat} {o : TrapOut}
+    (h : Waiting t σ) (hpc : t.sys.pc = .await) (hu : BSteps t u) (ho : u.out = some o) :
+    o = .trapped σ ∧ jobDone u.sys.log t.job = none := by
+  obtain ⟨_, hr⟩ := race_bsteps hu (⟨rfl, Or.inl ⟨h, hpc⟩⟩ : Race t.job σ t)
+  rcases hr with ⟨hw, _⟩ | ⟨log0, hopen, ⟨h1, _⟩ | ⟨h1, h2⟩⟩
+  · rw [hw.out] at ho; simp at ho
+  · rw [h1] at ho; simp at ho
+  · rw [h1] at ho; simp at ho
+    exact ⟨ho.symm, by rw [h2]; exact hopen⟩
+
+/-- ★ End to end for the driver's `ts` / `tw` statements: from ANY shell state satisfying `Inv` (any children in any
+    state), fork a child (any number of internal steps `f`, any exit status `n`) that sends the trapped signal `σ`
+    before it exits, start `wait` for it and let the shell run until it blocks (`St.newJob`, `TSys.start`,
+    `parentTurn`): the shell IS then blocked waiting (`Waiting`), and whatever the driver's scheduler `trun` returns
+    for any fuel and any choice list, if the built-in has ended it has ended `Trapped(σ)` with the job still
+    waitable. -/
+theorem ts_driver_trapped_any_children {s : Sys} (hI : Inv s) (f n σ fuel : Nat) (choices : List Nat)
+    (hσ : σ ≠ SIGCHLD_NO) :
+    let s' : Sys := { s with children := s.children ++ [{ state := .running f (.exited n) }] }
+    let t := parentTurn (TSys.start s' s.children.length [σ] [(s.children.length, σ)])
+    (Waiting t σ ∧ t.sys.pc = .await) ∧
+    ∀ o, (trun fuel choices t).out = some o →
+      o = .trapped σ ∧ jobDone (trun fuel choices t).sys.log s.children.length = none := by
+  intro s' t
+  obtain ⟨hw, hpc, hj⟩ := start_waiting hI f n σ hσ
+  refine ⟨⟨hw, hpc⟩, fun o ho => ?_⟩
+  have := signal_then_exit_is_trapped_under_executor hw hpc (trun_bsteps fuel choices _) ho
+  rw [hj] at this
+  exact this
+
+/-- other children alive and unreported, the job's exit overtaking the shell: still `Trapped`, job not logged -/
+example :
+    let s : Sys := { children := [{ state := .running 1 (.exited 5) }, { state := .halted (.exited 2), changed := true }],
+                     disp := .catch, pending := true }
+    let t := parentTurn (TSys.start { s with children := s.children ++ [{ state := .running 1 (.exited 3) }] } 2 [6] [(2, 6)])
+    t.sys.pc = .await ∧ t.out = none ∧
+      (trun 100 [1, 1, 1, 1, 1, 1, 1] t).out = some (.trapped 6) ∧
+      (trun 100 [3, 2, 1, 0, 2, 1] t).out = some (.trapped 6) ∧
+      jobDone (trun 100 [1, 1, 1, 1, 1, 1, 1] t).sys.log 2 = none := by
+  decide
+
+
+/-- No caught signal is lost at a wake-up: every signal delivered by the `select` of `wait_for_signals` either is the
+    one whose trap action the built-in runs (`Trapped`), or is remembered in the `TrapSet` (`catch_signal`: its trap
+    action runs after the built-in) — together with everything remembered before; and nothing stays pending. -/
+theorem caught_signals_not_lost {t t' : TSys} (hpc : t.sys.pc = .await) (hs : tparentStep t = some t') :
+    t'.sigPending = [] ∧ t'.sys.pending = false ∧
+    (∀ σ, σ ∈ t.flags ++ t.sigPending → σ ∈ t'.flags ∨ t'.out = some (.trapped σ)) := by
+  unfold tparentStep at hs
+  split at hs
+  · simp at hs
+  · simp only [hpc] at hs
+    split at hs
+    · split at hs
+      · rename_i σ0 _
+        simp only [Option.some.injEq] at hs; subst hs
+        refine ⟨rfl, rfl, fun σ hσ => ?_⟩
+        by_cases e : σ = σ0
+        · right; simp [e]
+        · left; exact (List.mem_erase_of_ne e).mpr hσ
+      · simp only [Option.some.injEq] at hs; subst hs
+        exact ⟨rfl, rfl, fun σ hσ => Or.inl hσ⟩
+    · simp at hs
+
+
+example :
+    let t : TSys := { sys := { children := [{ state := .running 1 (.exited 0) }], disp := .catch, pc := .await },
+                      job := 0, traps := [6, 5], sigPending := [5, 6], flags := [2] }
+    (tparentStep t).map (fun u => (u.out, u.flags)) = some (some (.trapped 5), [2, 6]) := by
+  decide
+
+/-- ★ Connection of the two models: while no trapped signal is pending, every step of the shell inside the `wait`
+    built-in of `WaitTrap.lean` IS a step of the request `wait(-1)` of `Model.lean` (`parentStep` with target
+    `any`, the system every theorem above and the `WaitOps` layer are about): same children, flags, log,
+    disposition, pending SIGCHLD; same program counter, except that after handing out the state of a child that
+    is not the awaited job the built-in goes straight into the next `wait_for_any_job_or_trap` (`enable`) where
+    the request ends (`done`) — `awaitJobRun` issues the next request there.  (The single call of a bare `wait` ends
+    exactly where the request ends.) -/
+theorem wait_trap_refines_wait_any {t t' : TSys} (h : TInv t) (hq : t.sigPending = [])
+    (hs : tparentStep t = some t') :
+    ∃ s', parentStep t.sys = some s' ∧ s'.children = t'.sys.children ∧ s'.log = t'.sys.log ∧
+      s'.disp = t'.sys.disp ∧ s'.pending = t'.sys.pending ∧
+      (s'.pc = t'.sys.pc ∨ (s'.pc = .done ∧ t'.sys.pc = .enable ∧ t'.out = none)) := by
+  have hI := h.inv
+  unfold tparentStep at hs
+  split at hs
+  · simp at hs
+  · rename_i hout0
+    split at hs
+    · rename_i hpc
+      simp only [Option.some.injEq] at hs; subst hs
+      exact ⟨_, by simp only [parentStep, hpc], rfl, rfl, rfl, rfl, Or.inl rfl⟩
+    · rename_i hpc
+      split at hs
+      · rename_i i st hw
+        obtain ⟨c, hc, hch, hst, _⟩ := sysWait_state hw
+        have hdead := hI.changed_halted i c hc hch
+        obtain ⟨r0, hr0⟩ : ∃ r0, st = .halted r0 := by
+          rw [← hst]
+          cases hcs : c.state with
+          | running f r => simp [hcs, PState.isAlive] at hdead
+          | halted r => exact ⟨r, rfl⟩
+        subst hr0
+        split at hs
+        · simp only [Option.some.injEq] at hs; subst hs
+          exact ⟨{ t.sys with children := take t.sys.children i, log := (i, r0) :: t.sys.log,
+                              results := .got i r0 :: t.sys.results, pc := .done },
+            by simp only [parentStep, hpc, h.target, hw], rfl, by simp [logOf], rfl, rfl, Or.inl rfl⟩
+        · split at hs
+          · simp only [Option.some.injEq] at hs; subst hs
+            exact ⟨{ t.sys with children := take t.sys.children i, log := (i, r0) :: t.sys.log,
+                                results := .got i r0 :: t.sys.results, pc := .done },
+              by simp only [parentStep, hpc, h.target, hw], rfl, by simp [logOf], rfl, rfl, Or.inl rfl⟩
+          · simp only [Option.some.injEq] at hs; subst hs
+            exact ⟨{ t.sys with children := take t.sys.children i, log := (i, r0) :: t.sys.log,
+                                results := .got i r0 :: t.sys.results, pc := .done },
+              by simp only [parentStep, hpc, h.target, hw], rfl, by simp [logOf], rfl, rfl,
+              Or.inr ⟨rfl, rfl, hout0⟩⟩
+      · rename_i hw
+        simp only [Option.some.injEq] at hs; subst hs
+        exact ⟨_, by simp only [parentStep, hpc, h.target, hw], rfl, rfl, rfl, rfl, Or.inl rfl⟩
+      · rename_i hw
+        simp only [Option.some.injEq] at hs; subst hs
+        exact ⟨{ t.sys with results := .echild :: t.sys.results, pc := .done },
+          by simp only [parentStep, hpc, h.target, hw], rfl, rfl, rfl, rfl, Or.inl rfl⟩
+    · rename_i hpc
+      split at hs
+      · rename_i hcond
+        simp only [hq, firstTrapped, List.find?_nil, Option.some.injEq] at hs; subst hs
+        have hp : t.sys.pending = true := by simpa [hq] using hcond
+        exact ⟨_, by simp only [parentStep, hpc, hp, if_true], rfl, rfl, rfl, rfl, Or.inl rfl⟩
+      · simp at hs
+    · simp at hs
+
+
+/-- The shape of `wait_for_any_job_or_trap` that `tparentStep` transcribes, re-extracted from
+    yash-builtin/src/wait/core.rs on every run (`tools/tables/proc.py` → `Generated/WaitCore.lean`; a statement the
+    extractor cannot classify — a `continue`, a test of another signal — is a loud failure there): the SIGCHLD
+    handler is installed before the loop (`Pc.enable` precedes `Pc.poll`), the loop polls `wait(Pid::ALL)`
+    (`sysWait … .any`), the `Ok(None)` arm waits for signals, then (interactive shells only, not modelled) the
+    defaulted-SIGINT test, then runs the trap of the first caught signal that has one and returns `Trapped`
+    (`Pc.await`: `firstTrapped`), else polls again; `Ok(Some)` records the state and returns; ECHILD is
+    `NothingToWait`.  A reordering of these statements changes the table and breaks this theorem. -/
+theorem wait_core_as_modelled :
+    YashModel.Generated.WaitCore.enableBeforeLoop = true ∧
+    YashModel.Generated.WaitCore.waitTarget = "ALL" ∧
+    YashModel.Generated.WaitCore.okNoneArm =
+      ["wait_for_signals", "sigint_default_interrupt", "run_first_trap_return"] ∧
+    YashModel.Generated.WaitCore.okSomeArm = ["update_status", "return_ok"] ∧
+    YashModel.Generated.WaitCore.echildArm = ["nothing_to_wait"] ∧
+    YashModel.Generated.WaitCore.otherErrArm = ["system_error"] := by
+  decide
+
+
+/-- exit status of the whole built-in: the last operand's status; `ExitStatus::from(signal)` = signal + 0x180
+    (384 + n, not 128 + n) when a trap interrupted it -/
+def OpsOut.status : OpsOut → Nat
+  | .done sts => sts.getLast?.getD EXIT_SUCCESS
+  | .trapped σ _ => σ + SIGNAL_EXIT_OFFSET
+  | .failed _ => 998
+
+/-- ★ `wait o1 … on` while trapped signals arrive — what `Command::await_jobs` guarantees for EVERY operand list,
+    every job table and every scheduler (`run`: any function that takes a started operand some number of steps of
+    the system).  If it ends `Trapped(σ)`: σ has a trap action; the exit status is 384 + σ (`ExitStatus::from`, > 128
+    as XCU 2.12 demands, = `Spec.waitInterrupted`); the operands before the interrupted one — and only those — have
+    been dealt with (`sts` has one status per such operand, the job table is the one those operands leave:
+    `eraseOps jobs pre`); the interrupted operand's job is STILL IN THE TABLE and no later operand has been looked at
+    (`rest`), so every job not named before stays waitable; the state satisfies the invariant (whatever is recorded
+    is a true final status, `Inv.logged`).  If it ends `Ok`: one status per operand, table = `eraseOps jobs ops`. -/
+theorem wait_operands_trapped_sound (run : TSys → TSys) (hrun : ∀ x, TSteps x (run x)) (jobs : List Nat)
+    (t : TSys) (ops : List (Option Nat)) (h : TInv t) :
+    let res := tawaitJobs run jobs t ops
+    TInv res.2.1 ∧ res.2.1.traps = t.traps ∧
+    (∀ sts, res.2.2 = .done sts → sts.length = ops.length ∧ res.1 = eraseOps jobs ops) ∧
+    (∀ σ sts, res.2.2 = .trapped σ sts →
+      σ ∈ t.traps ∧ res.2.2.status = Spec.waitInterrupted σ ∧ 128 < res.2.2.status ∧
+      ∃ pre i rest, ops = pre ++ some i :: rest ∧ sts.length = pre.length ∧ res.1 = eraseOps jobs pre ∧ i ∈ res.1 ∧
+        (∀ j, j ∈ res.1 → j ∈ jobs)) := by
+  intro res
+  have hs := tawaitJobs_sound run hrun jobs t ops h
+  refine ⟨hs.inv, hs.traps_eq, hs.done_, ?_⟩
+  intro σ sts hres
+  obtain ⟨h1, pre, i, rest, h2, h3, h4, h5⟩ := hs.trapped_ σ sts hres
+  refine ⟨h1, ?_, ?_, pre, i, rest, h2, h3, h4, h5, ?_⟩
+  · show res.2.2.status = _
+    rw [hres]; simp only [OpsOut.status, Spec.waitInterrupted, SIGNAL_EXIT_OFFSET]; omega
+  · show 128 < res.2.2.status
+    rw [hres]; simp only [OpsOut.status, SIGNAL_EXIT_OFFSET]; omega
+  · intro j hj
+    have : j ∈ eraseOps jobs pre := by rw [← h4]; exact hj
+    exact eraseOps_sub this
+
+/-- ★ A trapped signal caught while the shell is blocked ends the WHOLE built-in, whatever operand it is waiting for
+    and whatever follows: if on the way of the operand's run (`v`) the shell is blocked with a signal that has a trap
+    action pending, then — provided the run ends at all — the outcome is `Trapped(σ)` with nothing awaited from this
+    operand on: the job table is untouched, later operands are not waited for. -/
+theorem armed_operand_ends_builtin (run : TSys → TSys) (jobs : List Nat) (t : TSys) (i : Nat)
+    (ops : List (Option Nat)) (hi : i ∈ jobs) {v : TSys} {σ : Nat} {log0 : List (Nat × Result)}
+    (hv : TSteps v (run (t.next i))) (ha : Armed v σ log0) (hend : (run (t.next i)).out ≠ none) :
+    tawaitJobs run jobs t (some i :: ops) = (jobs, run (t.next i), .trapped σ []) ∧
+      (run (t.next i)).sys.log = log0 := by
+  rcases armed_steps hv (Or.inl ha) with ⟨h1, _⟩ | ⟨h1, h2⟩
+  · exact absurd h1 hend
+  · refine ⟨?_, h2⟩
+    simp [tawaitJobs, hi, h1]
+
+/-- ★ `wait $! o2 … on` where `$!` is a job that sends the trapped signal before it exits (the `tso` statements),
+    under the executor's scheduling, with any other children and any further operands: `Trapped(σ)`, job table
+    untouched, the job not recorded as finished. -/
+theorem signalling_first_operand_ends_builtin (run : TSys → TSys) (hrun : ∀ x, BSteps (parentTurn x) (run x))
+    (jobs : List Nat) (t : TSys) (pid : Nat) (rest : List (Option Nat)) (hi : pid ∈ jobs) {σ : Nat}
+    (hw : Waiting (parentTurn (t.next pid)) σ) (hpc : (parentTurn (t.next pid)).sys.pc = .await)
+    (hend : (run (t.next pid)).out ≠ none) :
+    tawaitJobs run jobs t (some pid :: rest) = (jobs, run (t.next pid), .trapped σ []) ∧
+      jobDone (run (t.next pid)).sys.log (parentTurn (t.next pid)).job = none := by
+  cases ho : (run (t.next pid)).out with
+  | none => exact absurd ho hend
+  | some o =>
+    obtain ⟨h1, h2⟩ := signal_then_exit_is_trapped_under_executor hw hpc (hrun _) ho
+    subst h1
+    refine ⟨?_, h2⟩
+    simp [tawaitJobs, hi, ho]
+
+/-- ★ `wait` without operands while trapped signals arrive (`wait_while_running(any_job_is_running)`), for every job
+    table, every bound on the iterations and every scheduler: `Ok` ⇒ exit status 0 and an empty table; `Trapped(σ)`
+    ⇒ σ has a trap action, exit status 384 + σ, the table is not empty, and NO JOB IS FORGOTTEN: every job of the
+    original table is still in the table, or its final state has been recorded (this `wait` has consumed it, as a
+    `wait` without operands does); nothing is in the table that was not there; recorded states are true ones
+    (`TInv`). -/
+theorem wait_all_trapped_sound (run : TSys → TSys) (hrun : ∀ x, TSteps x (run x)) (k : Nat) (jobs : List Nat)
+    (t : TSys) (h : TInv t) :
+    let res := tawaitAll run k jobs t
+    TInv res.2.1 ∧ (∀ j, j ∈ res.1 → j ∈ jobs) ∧
+    (∀ j, j ∈ jobs → j ∈ res.1 ∨ (jobDone res.2.1.sys.log j).isSome = true) ∧
+    (∀ sts, res.2.2 = .done sts → res.2.2.status = EXIT_SUCCESS ∧ res.1 = []) ∧
+    (∀ σ sts, res.2.2 = .trapped σ sts →
+      σ ∈ t.traps ∧ res.2.2.status = Spec.waitInterrupted σ ∧ sts = [] ∧ res.1 ≠ []) := by
+  intro res
+  have hs := tawaitAll_sound run hrun k jobs t h
+  refine ⟨hs.inv, hs.sub, hs.kept, ?_, ?_⟩
+  · intro sts hres
+    obtain ⟨h1, h2⟩ := hs.done_ sts hres
+    refine ⟨?_, h2⟩
+    show res.2.2.status = _
+    rw [hres, h1]; rfl
+  · intro σ sts hres
+    obtain ⟨h1, h2, h3⟩ := hs.trapped_ σ sts hres
+    refine ⟨h1, ?_, h2, h3⟩
+    show res.2.2.status = _
+    rw [hres]; simp only [OpsOut.status, Spec.waitInterrupted, SIGNAL_EXIT_OFFSET]; omega
+
+/-- ★ A trap on SIGCHLD itself (`trap … CHLD; cmd & wait $!`): the shell blocked in `wait` for its only live child,
+    SIGCHLD having a trap action.  Under every schedule the child's exit interrupts the built-in: `Trapped(SIGCHLD)`
+    (exit status 384 + SIGCHLD), and the child's state has NOT been handed out — the job is still there for the next
+    `wait`, which yields its status.  (XCU 2.12 makes no exception for SIGCHLD.) -/
+theorem chld_trap_interrupts_wait {t u : TSys} {o : TrapOut} (h : SoleChld t) (hu : TSteps t u)
+    (ho : u.out = some o) : o = .trapped SIGCHLD_NO ∧ u.sys.log = t.sys.log := by
+  rcases sole_chld_steps hu h with ⟨h1, _⟩ | ⟨h1, _⟩ | ⟨h1, h2⟩
+  · rw [h1.out] at ho; simp at ho
+  · rw [h1] at ho; simp at ho
+  · rw [h1] at ho; simp at ho
+    exact ⟨ho.symm, h2⟩
+
+example :
+    let t := parentTurn (TSys.start { children := [{ state := .running 1 (.exited 3) }] } 0 [SIGCHLD_NO] [])
+    t.sys.pc = .await ∧ t.out = none ∧ t.sys.disp = .catch ∧
+      (trun 100 [0, 0, 0, 0] t).out = some (.trapped SIGCHLD_NO) ∧ (trun 100 [0, 0, 0, 0] t).sys.log = [] := by
+  decide
+
+/-- two operands, the first job finishes, the second sends a trapped signal: `Trapped` after one status; and a bare
+    `wait` interrupted with one job recorded and one still in the table -/
+example :
+    let s : Sys := { children := [{ state := .running 0 (.exited 5) }, { state := .running 1 (.exited 3) }] }
+    let t0 : TSys := { sys := s, job := 0, traps := [6], senders := [(1, 6)], out := some .nothing }
+    let run := fun x => trun 200 [0, 1, 2, 0, 1] (parentTurn x)
+    (tawaitJobs run [0, 1] t0 [some 0, none, some 1, some 0]).2.2 = .trapped 6 [5, 127] ∧
+    (tawaitJobs run [0, 1] t0 [some 0, none, some 1, some 0]).1 = [1] ∧
+    (tawaitAll run 10 [0, 1] t0).2.2 = .trapped 6 [] ∧ (tawaitAll run 10 [0, 1] t0).1 = [1] := by
+  decide
 
 end WaitTrap
 
